@@ -108,8 +108,11 @@ fn close_scenario(seed: u64, thorough: bool) -> Result<Outcome, String> {
 	let mut out = Outcome { ops: vec![], class: String::new(), oracle: vec![], est_kind: String::new() };
 	// A's channel is closed by A's own latest commitment or by the counterparty's, on legacy AND anchor channels; on anchor channels
 	// the closer's claims need external funding: BumpTransaction events of BOTH nodes go to their BumpTransactionEventHandler + test wallet
-	let holder_close = rng.chance(1, 2);
+	let mut holder_close = rng.chance(1, 2);
 	let anchors = rng.chance(1, 3);
+	// `auto`: nobody force-closes by hand — blocks are connected until one of the two MONITORS goes on chain by itself for an HTLC deadline
+	// (should_broadcast_holder_commitment_txn); whoever does is the closer, and the height is compared with Model/ClaimTime.lean `firstOnchain`
+	let auto = !anchors && rng.chance(1, 6);
 	let (cfg_a, cfg_b, d_a, d_b) = draw_cfgs(&mut rng, anchors);
 	let mut net = std::mem::ManuallyDrop::new(Net::new(2, vec![Some(cfg_a), Some(cfg_b)]));   // never dropped: skips Node::drop's end-of-test assertions (half-finished scenario by design)
 	{	// block-delivery style from the scenario seed (create_network draws it from a per-process RandomState otherwise)
@@ -126,7 +129,6 @@ fn close_scenario(seed: u64, thorough: bool) -> Result<Outcome, String> {
 	}
 	let c = net.open(0, 1, 1_000_000, 400_000_000);
 	let chan_id = net.chans[c].2;
-	let a = 0usize; let b = 1usize;
 	// ---- HTLC mix -----------------------------------------------------------------------------------
 	for _ in 0..rng.below(4) {   // some settled history first
 		let (x, y) = if rng.chance(1, 2) { (0, 1) } else { (1, 0) };
@@ -137,7 +139,8 @@ fn close_scenario(seed: u64, thorough: bool) -> Result<Outcome, String> {
 	let mut n_mpp = 0u32;
 	for _ in 0..n_htlc {
 		let (x, y) = if rng.chance(1, 2) { (0, 1) } else { (1, 0) };
-		let amt = match rng.below(4) { 0 => rng.range(1_000, 500_000), 1 => rng.range(500_000, 600_000), _ => rng.range(1_000_000, 30_000_000) };
+		// (`auto`: non-dust HTLCs only — dust ones trigger the same rule but cannot be read back from the closing commitment)
+		let amt = match if auto { 3 } else { rng.below(4) } { 0 => rng.range(1_000, 500_000), 1 => rng.range(500_000, 600_000), _ => rng.range(1_000_000, 30_000_000) };
 		// (long expiries leave room for a preimage learned k blocks AFTER the close: the receiving ChannelManager gives a payment up
 		// HTLC_FAIL_BACK_BUFFER = 39 blocks before its expiry)
 		let delta = 42 + if rng.chance(1, 2) { rng.below(40) } else { rng.below(150) } as u32;
@@ -159,11 +162,35 @@ fn close_scenario(seed: u64, thorough: bool) -> Result<Outcome, String> {
 		_ => {},
 	} }
 	// ---- closure ----------------------------------------------------------------------------------------
-	let closer = if holder_close { a } else { b };
+	let a = 0usize; let b = 1usize;
+	// the counterparty closes with the commitment that is, in A's monitor, the PREVIOUS one (`prev_counterparty_commitment_txid`): A has signed a
+	// newer commitment for B (a new outbound HTLC here; an update_fulfill of a payment A claimed above does the same) that B never received
+	if !holder_close && !auto && rng.chance(1, 3) {
+		let amt = match rng.below(3) { 0 => rng.range(1_000, 500_000), _ => rng.range(1_000_000, 20_000_000) };
+		let _ = net.send(&[a, b], &[c], amt, 42 + rng.below(100) as u32);      // NOT settled: update_add_htlc + commitment_signed stay in the queue
+	}
 	let peer_of = |i: usize| if i == a { b } else { a };
 	for i in 0..2 { net.nodes[i].tx_broadcaster.txn_broadcasted.lock().unwrap().clear(); }
-	net.nodes[closer].node.force_close_broadcasting_latest_txn(&chan_id, &net.ids[peer_of(closer)], "verif".to_string()).map_err(|e| format!("force close: {:?}", e))?;
-	let mut commitment_tx = { let v = net.nodes[closer].tx_broadcaster.txn_broadcasted.lock().unwrap(); v.iter().find(|t| t.input.len() == 1 && t.input[0].previous_output.vout == 0 && t.output.len() >= 1).cloned() };
+	let is_commitment = |t: &Transaction| t.input.len() == 1 && t.input[0].previous_output.vout == 0 && t.output.len() >= 1;
+	let mut auto_info: Option<(u32, u32)> = None;      // (first height evaluated, height at which the closer's monitor broadcast)
+	if auto {
+		if pays.is_empty() { return Err("auto: no pending HTLC".into()); }
+		let start = net.nodes[a].best_block_info().1 + 1;
+		let mut who = None;
+		for _ in 0..460 {
+			for i in 0..2 { connect_blocks(&net.nodes[i], 1); }
+			for i in 0..2 { let _ = net.nodes[i].node.get_and_clear_pending_msg_events(); let _ = net.nodes[i].node.get_and_clear_pending_events(); net.nodes[i].chain_monitor.added_monitors.lock().unwrap().clear(); }
+			for i in [a, b] { if who.is_none() && net.nodes[i].tx_broadcaster.txn_broadcasted.lock().unwrap().iter().any(|t| is_commitment(t)) { who = Some(i); } }
+			if who.is_some() { break; }
+		}
+		let who = who.ok_or("auto: nobody went on chain")?;
+		holder_close = who == a;
+		auto_info = Some((start, net.nodes[who].best_block_info().1));
+		// (the other node may have gone on chain in the same block: its transactions are not under test)
+	}
+	let closer = if holder_close { a } else { b };
+	if !auto { net.nodes[closer].node.force_close_broadcasting_latest_txn(&chan_id, &net.ids[peer_of(closer)], "verif".to_string()).map_err(|e| format!("force close: {:?}", e))?; }
+	let mut commitment_tx = { let v = net.nodes[closer].tx_broadcaster.txn_broadcasted.lock().unwrap(); v.iter().find(|t| is_commitment(t)).cloned() };
 	if commitment_tx.is_none() {
 		// anchor channel: the commitment is handed to the user for CPFP instead of being broadcast
 		for e in net.nodes[closer].chain_monitor.chain_monitor.get_and_clear_pending_events() {
@@ -176,6 +203,14 @@ fn close_scenario(seed: u64, thorough: bool) -> Result<Outcome, String> {
 	let ct = commitment_for(&net, peer_of(closer), chan_id, ctxid).ok_or("closing commitment unknown to the other monitor")?;
 	let trusted = ct.trust();
 	if trusted.built_transaction().transaction.output.len() != commitment_tx.output.len() { return Err("commitment shape mismatch".into()); }
+	// counterparty close: is the closing commitment the LATEST one A signed for B, or the one before (not yet revoked)?
+	let cp_prev = if holder_close { false } else {
+		let mon = net.nodes[a].chain_monitor.chain_monitor.get_monitor(chan_id).map_err(|_| "no monitor")?;
+		let updates = net.nodes[a].chain_monitor.monitor_updates.lock().unwrap().get(&chan_id).cloned().unwrap_or_default();
+		let mut seq: Vec<Txid> = mon.initial_counterparty_commitment_tx().map(|t| t.trust().txid()).into_iter().collect();
+		for u in updates.iter() { for t in mon.counterparty_commitment_txs_from_update(u) { seq.push(t.trust().txid()); } }
+		match seq.iter().rev().position(|t| *t == ctxid) { Some(0) => false, Some(1) => true, _ => return Err("closing commitment is neither A's current nor A's previous counterparty commitment".into()) }
+	};
 	// the CSV REALLY in the scripts of A's delayed outputs on A's own commitment: what B chose (harness-side ground truth: the configs)
 	let csv_on_a: u32 = d_b as u32;
 	let mut items: Vec<Item> = vec![];
@@ -190,12 +225,20 @@ fn close_scenario(seed: u64, thorough: bool) -> Result<Outcome, String> {
 		}
 	}
 	let mut hids: Vec<[u8; 32]> = vec![];
+	let mut pre_toks: Vec<String> = vec![];
 	for h in ct.nondust_htlcs() {
 		let vout = h.transaction_output_index.ok_or("non-dust HTLC without index")?;
 		let outbound_from_a = h.offered == holder_close;      // offered by the broadcaster
 		let kind = if outbound_from_a { K::O } else if known.contains(&h.payment_hash.0) { K::I } else { K::U };
 		let hid = match hids.iter().position(|x| *x == h.payment_hash.0) { Some(k) => k + 1, None => { hids.push(h.payment_hash.0); hids.len() } };
 		items.push(Item { kind, sat: h.amount_msat / 1000, vout, cltv: h.cltv_expiry, hash: h.payment_hash.0, hid });
+		pre_toks.push(format!("{}:{}:{}", match kind { K::S => "S", K::O => "O", K::I => "I", K::U => "U" }, h.amount_msat, h.cltv_expiry));
+	}
+	if let Some((start, hb)) = auto_info {
+		// every HTLC of the closer's commitment as ITS monitor sees it: (expiry, offered by the closer, received with the preimage in the monitor)
+		let toks: Vec<String> = ct.nondust_htlcs().iter().map(|h| format!("{}:{}:{}", h.cltv_expiry, h.offered as u8, (!h.offered && known.contains(&h.payment_hash.0)) as u8)).collect();
+		out.ops.push((format!("goesany {} 600 {} s{:x}", start, toks.join(" "), seed & 0xffffff), hb.to_string(), format!("goes-onchain:{}:{}", if holder_close { "A" } else { "counterparty" },
+			if ct.nondust_htlcs().iter().any(|h| !h.offered && known.contains(&h.payment_hash.0) && h.cltv_expiry <= hb + 36) { "inbound-preimage-deadline" } else { "outbound-expired" })));
 	}
 	// (B may know preimages of A's outbound HTLCs: then B takes them on chain — a `peer` claim)
 	let mut conf_height: HashMap<Txid, u32> = HashMap::new();
@@ -222,6 +265,10 @@ fn close_scenario(seed: u64, thorough: bool) -> Result<Outcome, String> {
 	let balances_of_a = |net: &Net| -> Vec<Balance> { net.nodes[a].chain_monitor.chain_monitor.get_monitor(chan_id).map(|m| m.get_claimable_balances()).unwrap_or_default() };
 	// pre-confirmation sanity (oracle only): the pre-close view reports a ClaimableOnChannelClose
 	if !balances_of_a(&net).iter().any(|b| matches!(b, Balance::ClaimableOnChannelClose { .. })) { out.oracle.push("no ClaimableOnChannelClose before the closing transaction confirmed".into()); }
+	if holder_close {
+		// the pre-confirmation view (ClaimableOnChannelClose + per-HTLC balances) walks A's CURRENT HOLDER commitment — the one that is about to confirm
+		out.ops.push((format!("preclose {} {} s{:x}", trusted.to_broadcaster_value_sat(), pre_toks.join(" "), seed & 0xffffff).replace("  ", " "), show_balances(&balances_of_a(&net)), format!("preclose:{}", if anchors { "anchors" } else { "legacy" })));
+	}
 	// (what the closer broadcast together with its commitment — a legacy holder's HTLC-success transactions — stays in the queue: it is
 	// collected, verified and offered to the miner in round 0)
 	mine_both(&net, &[commitment_tx.clone()]);
@@ -300,10 +347,14 @@ fn close_scenario(seed: u64, thorough: bool) -> Result<Outcome, String> {
 	let item_tok = |it: &Item| format!("{}:{}:{}:{}:{}", match it.kind { K::S => "S", K::O => "O", K::I => "I", K::U => "U" }, it.sat,
 		if it.kind == K::O { it.cltv } else { 0 }, if it.kind == K::I || it.kind == K::U { it.cltv } else { 0 }, it.hid);
 	let shown0 = format!("{} | {}", show_balances(&balances_of_a(&net)), spendable);
-	out.ops.push((format!("close {} {} {} {} {}", close_h, holder_close as u8, d_a, d_b, items.iter().map(item_tok).collect::<Vec<_>>().join(" ")).trim_end().to_string(), shown0, "close".into()));
+	out.ops.push((format!("close {} {} {} {} {}", close_h, if holder_close { 1 } else if cp_prev { 2 } else { 0 }, d_a, d_b, items.iter().map(item_tok).collect::<Vec<_>>().join(" ")).trim_end().to_string(), shown0, if cp_prev { "close:previous-counterparty-commitment".into() } else { "close".into() }));
 	let _ = seed;
 	let mut pool: Vec<(Transaction, usize)> = vec![];       // (tx, broadcaster)
 	let mut a_history: Vec<Transaction> = vec![];
+	let mut first_seen: Vec<Option<u32>> = items.iter().map(|_| None).collect();          // height at which A first broadcast a claim of the item
+	let mut issue_heights: Vec<Vec<u32>> = items.iter().map(|_| vec![]).collect();        // heights of A's single-input claims of the item
+	let mut multi_input: Vec<bool> = items.iter().map(|_| false).collect();
+	let mut claimed_in_block: Vec<Option<u32>> = items.iter().map(|_| None).collect();
 	let mut last_fee: BTreeMap<Vec<OutPoint>, u64> = BTreeMap::new();
 	let mut item_state: Vec<u8> = items.iter().map(|_| 0).collect();   // 0 open, 1 claimed by A, 2 taken by B
 	let mut known_since: Vec<u32> = items.iter().map(|_| close_h).collect();
@@ -337,7 +388,7 @@ fn close_scenario(seed: u64, thorough: bool) -> Result<Outcome, String> {
 				process_events!(a);
 				if let Some(hid) = hid {
 					n_late += 1;
-					out.ops.push((format!("preimage {} {:x}", hid, seed & 0xffffff), format!("{} | {}", show_balances(&balances_of_a(&net)), spendable), format!("preimage:+{}{}", (h - close_h).min(9), if items.iter().filter(|it| it.hid == hid).count() > 1 { ":multi-part" } else { "" })));
+					out.ops.push((format!("preimage {} {:x}", hid, seed & 0xffffff), format!("{} | {}", show_balances(&balances_of_a(&net)), spendable), format!("preimage:+{}{}{}", (h - close_h).min(9), if items.iter().filter(|it| it.hid == hid).count() > 1 { ":multi-part" } else { "" }, if cp_prev { ":on-previous-counterparty-commitment" } else { "" })));
 				}
 			}
 		}
@@ -356,6 +407,11 @@ fn close_scenario(seed: u64, thorough: bool) -> Result<Outcome, String> {
 					// (wallet-funded anchor claims: the handler sets fee = target x SIGNED weight, ECDSA signatures vary by a byte or two)
 					let noise = if anchors && holder_close { 4 * (*net.nodes[a].fee_estimator.sat_per_kw.lock().unwrap() as u64).max(253) / 1000 + 2 } else { 0 };
 					if let Some(f) = fee_of(&t, &prevouts) { if let Some(prev) = last_fee.get(&key) { n_rebroadcast += 1; if f + noise < *prev { out.oracle.push(format!("A's re-issued claim {} lowers its fee {} -> {}", t.compute_txid(), prev, f)); } } last_fee.insert(key, f); }
+					for inp in &t.input { if inp.previous_output.txid == ctxid { if let Some(ix) = items.iter().position(|it| it.vout == inp.previous_output.vout) {
+						if first_seen[ix].is_none() { first_seen[ix] = Some(h); }
+						let n_commitment_inputs = t.input.iter().filter(|x| x.previous_output.txid == ctxid).count();
+						if n_commitment_inputs == 1 { if issue_heights[ix].last() != Some(&h) { issue_heights[ix].push(h); } } else { multi_input[ix] = true; }
+					} } }
 					a_history.push(t.clone());
 				}
 				// outputs of unconfirmed transactions are needed to verify their children (anchor CPFP)
@@ -397,7 +453,7 @@ fn close_scenario(seed: u64, thorough: bool) -> Result<Outcome, String> {
 						// wallet inputs / change behind them on anchor channels); a claim on the counterparty's commitment sweeps into ONE output
 						let f = if holder_close { items[idx].sat.saturating_sub(t.output.get(input_idx).map(|o| o.value.to_sat()).unwrap_or(0)) } else { let f = fee_left.min(items[idx].sat); fee_left -= f; f };
 						claims.push(format!("claim {} {} {}", idx, h + 1, items[idx].sat - f));
-						item_state[idx] = 1; fees += f; item_fee[idx] = f;
+						item_state[idx] = 1; fees += f; item_fee[idx] = f; claimed_in_block[idx] = Some(h + 1);
 						let key = if holder_close { (id, input_idx as u32) } else { (id, 0) };
 						new_expect.push((key, (if holder_close { csv_on_a } else { 0 }, format!("the output of A's claim {} for item {} ({} sat)", &id.to_string()[..8], idx, items[idx].sat), vec![idx])));
 					} else { claims.push(format!("peer {} {}", idx, h + 1)); item_state[idx] = 2; taken_at[idx] = Some(h + 1); if items[idx].kind != K::U { lost += items[idx].sat; } }
@@ -439,12 +495,37 @@ fn close_scenario(seed: u64, thorough: bool) -> Result<Outcome, String> {
 	for (_, (_, what, _)) in expect.iter() { out.oracle.push(format!("{} never became a SpendableOutputs event ({})", what, desc)); }
 	let entitlement: u64 = items.iter().filter(|it| it.kind != K::U).map(|it| it.sat).sum();
 	if bals.is_empty() && spendable + fees + lost != entitlement { out.oracle.push(format!("SpendableOutputs {} + fees {} + taken by the counterparty {} != entitlement {} ({})", spendable, fees, lost, entitlement, desc)); }
+	// ---- WHEN claims were issued (Model/ClaimTime.lean): a timeout claim parked for its locktime comes out exactly at the locktime; a single-input
+	// preimage claim on the counterparty's commitment is re-issued exactly at its bump-timer heights until it confirms
+	let (mut n_release, mut n_sched) = (0u32, 0u32);
+	for (ix, it) in items.iter().enumerate() {
+		if it.kind == K::O { if let Some(fs) = first_seen[ix] {
+			// (a claim whose locktime had passed when the commitment was broadcast is first SEEN one block late by this harness: only parked ones are compared,
+			// and on the counterparty's commitment also those requested when it confirmed)
+			let req = if holder_close { close_h.saturating_sub(1) } else { close_h };
+			if it.cltv > close_h || !holder_close {
+				out.ops.push((format!("release {} {} {} {:x}", if holder_close { "H" } else { "R" }, it.cltv, req, seed & 0xffffff), fs.to_string(), format!("release:{}:{}", if holder_close { "holder-timeout" } else { "counterparty-commitment-timeout" }, if it.cltv > req { "parked" } else { "at-once" })));
+				n_release += 1;
+			}
+		} }
+		// (a bump that `compute_package_output` refuses — the fee would eat the output — is retried every block, so re-issues may come LATER than the
+		// timer; never earlier)
+		if !holder_close && !multi_input[ix] && issue_heights[ix].len() >= 2 && (it.kind == K::I || it.kind == K::O) {
+			for w in issue_heights[ix].windows(2) {
+				if claimed_in_block[ix].map(|cb| w[1] < cb).unwrap_or(true) && n_sched < 12 {
+					out.ops.push((format!("reissue {} {} {} {} {:x}", if it.kind == K::I { "F" } else { "R" }, it.cltv, w[0], w[1], seed & 0xffffff), "not-early".into(),
+						format!("reissue:{}:+{}", if it.kind == K::I { "preimage-claim" } else { "timeout-claim" }, (w[1] - w[0]).min(15))));
+					n_sched += 1;
+				}
+			}
+		}
+	}
 	out.ops.push(("totals".into(), format!("0 {} {} {} {}", spendable, fees, lost, entitlement), "totals".into()));
 	let cnt = |k: K| items.iter().filter(|it| it.kind == k).count().min(3);
 	if n_rebroadcast > 0 { out.ops.push(("totals".into(), format!("0 {} {} {} {}", spendable, fees, lost, entitlement), "rebroadcast-seen".into())); }
 	out.class = format!("close:{}{}:O{}:I{}:U{}:S{}", if holder_close { "holder" } else { "counterparty" }, if anchors { "-anchors" } else { "" }, cnt(K::O), cnt(K::I), cnt(K::U), cnt(K::S));
 	let dup_in = { let mut m: BTreeMap<usize, usize> = BTreeMap::new(); for it in &items { if it.hid != 0 && (it.kind == K::I || it.kind == K::U) { *m.entry(it.hid).or_insert(0) += 1; } } m.values().cloned().max().unwrap_or(0) };
-	out.est_kind = format!("{};delays:{};spent:{};mpp-sent:{};same-hash-inbound-outputs:{};late-preimages:{};late-refused:{}", out.est_kind, if d_a > d_b { "A>B" } else { "A<B" }, n_spent_descriptors.min(9), n_mpp.min(3), dup_in, n_late.min(4), n_late_refused.min(3));
+	out.est_kind = format!("{};delays:{};spent:{};mpp-sent:{};same-hash-inbound-outputs:{};late-preimages:{};late-refused:{};cp-commitment:{};release-ops:{};reissue-ops:{};closed-by:{}", out.est_kind, if d_a > d_b { "A>B" } else { "A<B" }, n_spent_descriptors.min(9), n_mpp.min(3), dup_in, n_late.min(4), n_late_refused.min(3), if holder_close { "-" } else if cp_prev { "previous" } else { "current" }, n_release.min(3), n_sched.min(3), if auto { "monitor-deadline" } else { "force_close" });
 	let _ = (item_state, a_history);
 	drain(&net);
 	Ok(out)
@@ -969,7 +1050,7 @@ fn main() {
 				}
 			}
 			rec.notes.insert("obs:duplicate-timelocked-package-debug-assert".into(), format!("{} scenarios were discarded at the debug-only assertion `pending_claim_requests.get(&claim_id).is_none()` of chain/onchaintx.rs (mechanism of KF-C11-2 reached without a reorg: anchor holder close, >= 2 outbound HTLCs of one expiry aggregated in locktimed_packages, preimage learned after the close); example: C07_CLOSE_SEED={}", kf_c11_2, kf_c11_2_example.map(|x| x.to_string()).unwrap_or("-".into())));
-			rec.notes.insert("rule".into(), "one scenario = one real 2-node channel closed by A's or by the counterparty's latest commitment (legacy or anchors, per-node to_self_delay / reserve) with a PRNG-drawn pending-HTLC mix incl. multi-part payments over the one channel (several outputs with one payment hash), preimages known before the close / learned k blocks after it / never; every block is one compared op (A's real get_claimable_balances vs the ledger); distinct non-trivial = close / totals lines and blocks that contain transactions".into());
+			rec.notes.insert("rule".into(), "one scenario = one real 2-node channel closed by A's or by the counterparty's latest commitment (legacy or anchors, per-node to_self_delay / reserve) with a PRNG-drawn pending-HTLC mix incl. multi-part payments over the one channel (several outputs with one payment hash), preimages known before the close / learned k blocks after it / never; counterparty closes use B's latest commitment, which is A's CURRENT or (A signed a newer one B never received: an undelivered update_add / update_fulfill) A's PREVIOUS unrevoked counterparty commitment; every block is one compared op (A's real get_claimable_balances vs the ledger); holder closes compare the pre-confirmation view (`preclose`); `release` = the height of A's first broadcast of a timeout claim vs requestIssueHeight; `reissue` = a re-issue is never earlier than the bump timer; distinct non-trivial = close / totals / preclose / release lines and blocks that contain transactions".into());
 		},
 		m => { eprintln!("unknown model {}", m); std::process::exit(2); },
 	}
